@@ -310,6 +310,9 @@ def comp_s(st, cx):
         return head + loop + bytes([0x65, 0x03]), []
     if k == 'exit_repeat':
         return jmp(0), [0]
+    if k == 'exit':
+        # an explicit exit: the opcode the compiler also puts at the end of every handler
+        return (b'\x02' if cx.h.get('method') else b'\x01'), []
     if k == 'if':
         c = comp_e(st[1], cx)
         A, ex = comp_body(st[2], cx)
@@ -835,6 +838,8 @@ def parse_block(lines, pos, scope, enders):
             out.append(hd + (A,))
         elif ln == [('id', 'exit'), ('id', 'repeat')]:
             out.append(('exit_repeat',))
+        elif ln == [('id', 'exit')]:
+            out.append(('exit',))
         elif k0[0] == 'id':
             name = k0[1]
             p = Parser(ln[1:], scope)
@@ -985,6 +990,8 @@ def pp_body(b, ind):
             s += I + st[1] + (' ' + ', '.join(pp_e(a) for a in st[2]) if st[2] else '') + '\n'
         elif k == 'exit_repeat':
             s += I + 'exit repeat\n'
+        elif k == 'exit':
+            s += I + 'exit\n'
         elif k == 'if':
             s += I + 'if %s then\n' % pp_e(st[1]) + pp_body(st[2], ind + 1) + I + 'end if\n'
         elif k == 'ife':
@@ -1233,6 +1240,8 @@ def js_body(b, ind):
             s += I + 'fn_call(' + js_call(st[1], st[2]) + ');\n'
         elif k == 'exit_repeat':
             s += I + 'break;\n'
+        elif k == 'exit':
+            s += I + 'exit();\n'
         elif k == 'if':
             s += I + 'if %s {\n' % cond_js(st[1]) + js_body(st[2], ind + 1) + I + '}\n'
         elif k == 'ife':
